@@ -59,7 +59,7 @@ def respell(items, f):
 
 def vic_escape_ok(s):
     """expressible as a vic literal with the same raw text: no quote, backslashes only as escaped pairs"""
-    rest = s.replace("\\\\", "").replace('\\"', "")          # escaped backslashes and escaped quotes are fine in both spellings
+    rest = s.replace("\\\\", "").replace('\\"', "").replace("\\$", "")          # escaped backslashes, quotes and dollars are fine in both spellings
     return '"' not in rest and "\\" not in rest
 
 
